@@ -528,7 +528,7 @@ func (p *Prog) buildScriptOpts(asserts []*Term, getValues []string, uninterp boo
 			if _, ok := p.ufuns[t.Head]; ok {
 				ufs[t.Head] = true
 			}
-			if strings.HasPrefix(t.Head, "appendAll_") {
+			if strings.HasPrefix(t.Head, "appendAll_") || t.Head == "gs.sub" || t.Head == "gs.at" {
 				ufs[t.Head] = true
 			}
 		})
@@ -552,7 +552,7 @@ func (p *Prog) buildScriptOpts(asserts []*Term, getValues []string, uninterp boo
 		if _, ok := p.ufuns[t.Head]; ok {
 			ufs[t.Head] = true
 		}
-		if strings.HasPrefix(t.Head, "appendAll_") {
+		if strings.HasPrefix(t.Head, "appendAll_") || t.Head == "gs.sub" || t.Head == "gs.at" {
 			ufs[t.Head] = true
 		}
 	})
@@ -660,6 +660,10 @@ func (p *Prog) axiomText(ufs map[string]bool) string {
 		}
 		// ... no input slot is used twice (so it is a permutation) ...
 		fmt.Fprintf(&sb, "(assert (forall ((a %s) (n Int) (i Int) (j Int)) (! (=> (and (<= 0 i) (< i j) (< j n)) (not (= (%s a n i) (%s a n j)))) :pattern ((%s a n i) (%s a n j)))))\n", as, pf, pf, pf, pf)
+	}
+	if ufs["gs.sub"] && ufs["gs.at"] {
+		// bytes of a substring
+		sb.WriteString("(assert (forall ((s Str) (lo Int) (hi Int) (k Int)) (! (=> (and (<= 0 lo) (<= 0 k) (< (+ lo k) hi) (<= hi (gs.len s))) (= (gs.at (gs.sub s lo hi) k) (gs.at s (+ lo k)))) :pattern ((gs.at (gs.sub s lo hi) k)))))\n")
 	}
 	if ufs["atoiVal"] {
 		sb.WriteString("(assert (forall ((s Str)) (! (and (<= (- 9223372036854775808) (atoiVal s)) (<= (atoiVal s) 9223372036854775807)) :pattern ((atoiVal s)))))\n")
